@@ -309,11 +309,14 @@ ConfDrift(r, c, qm2) ==
                    [] call.op = "truncate" -> ent[1] = <<"trunc", q, call.p, 0, ownLen>>
         posOk == posKnown /\ {posEnt[i][2] : i \in 1..Len(posEnt)} = expEmpty /\ Len(posEnt) = Cardinality(expEmpty)
                  /\ \A i \in 1..Len(posEnt) : posEnt[i][1] = "pos" /\ posEnt[i][3] = qm2[posEnt[i][2]].next
-        deterministic == c.policy \in {"always_flush", "always_fsync", "do_nothing"}
-        expIo == CallFsPlan(call.op, ownLen, c.prevW[1], c.prevW[2], trk0, refsAfter, lens, c.policy, TRUE)
+        \* OnDelay persists or not depending on the clock: either branch is the specification's (Wal.tla: `due`)
+        variants == CASE c.policy \in {"on_delay_0_flush", "on_delay_long_flush"} -> {"do_nothing", "always_flush"}
+                      [] c.policy \in {"on_delay_0_fsync", "on_delay_long_fsync"} -> {"do_nothing", "always_fsync"}
+                      [] OTHER -> {c.policy}
+        expIos == {CallFsPlan(call.op, ownLen, c.prevW[1], c.prevW[2], trk0, refsAfter, lens, pol, TRUE) : pol \in variants}
     IN  (IF ~ownOk THEN {"the call's own WAL entry differs from the specification's"} ELSE {})
    \cup (IF ownOk /\ ~posOk THEN {"the GC pass did not record exactly the empty queues with their next positions"} ELSE {})
-   \cup (IF ownOk /\ posOk /\ deterministic /\ c.crashfree /\ ObservedFs(r.io) # expIo
+   \cup (IF ownOk /\ posOk /\ c.crashfree /\ ObservedFs(r.io) \notin expIos
          THEN {"file-system effects of " \o call.op \o " differ from Wal's plan"} ELSE {})
 
 (* Clean restart: where the writer resumes, which files recovery opens, the recovery GC, and which *)
